@@ -28,6 +28,34 @@ type modelled struct {
 
 // (contract, method) -> model function and method number
 func (w *world) modelOf(c *contractDef, m string) *modelled {
+	if w.locks && w.bl != nil {
+		switch c.Name {
+		case "liquidity":
+			switch m {
+			case definition.LiquidityStakeMethodName:
+				return &modelled{"emb_liquidity", 1}
+			case definition.CancelLiquidityStakeMethodName:
+				return &modelled{"emb_liquidity", 2}
+			case definition.UnlockLiquidityStakeEntriesMethodName:
+				return &modelled{"emb_liquidity", 3}
+			case definition.SetIsHaltedMethodName:
+				return &modelled{"emb_liquidity", 4}
+			case definition.FundMethodName:
+				return &modelled{"emb_liquidity", 5}
+			case definition.BurnZnnMethodName:
+				return &modelled{"emb_liquidity", 6}
+			}
+		case "bridge":
+			switch m {
+			case definition.UnwrapTokenMethodName:
+				return &modelled{"emb_bridge", 1}
+			case definition.RedeemUnwrapMethodName:
+				return &modelled{"emb_bridge", 2}
+			case definition.RevokeUnwrapRequestMethodName:
+				return &modelled{"emb_bridge", 3}
+			}
+		}
+	}
 	if w.locks {
 		switch c.Name {
 		case "sentinel":
@@ -119,6 +147,8 @@ func (w *world) modelOf(c *contractDef, m string) *modelled {
 	return nil
 }
 
+var tieSeen = map[string]int{}
+
 var errCodes = map[error]int64{
 	constants.ErrUnpackError: 1, constants.ErrInvalidTokenOrAmount: 2, constants.ErrDataNonExistent: 3, constants.RevokeNotDue: 4,
 	constants.ErrNothingToWithdraw: 5, constants.ErrPermissionDenied: 6, constants.ErrInvalidStakingPeriod: 7,
@@ -126,7 +156,11 @@ var errCodes = map[error]int64{
 	constants.ReclaimNotDue: 11, constants.ErrExpired: 12, constants.ErrInvalidPreimage: 13, constants.ErrTokenInvalidText: 14,
 	constants.ErrTokenInvalidAmount: 15, constants.ErrIDNotUnique: 16, constants.ErrForbiddenParam: 17,
 	constants.ErrAlreadyRegistered: 18, constants.ErrNotEnoughDepositedQsr: 19, constants.ErrAlreadyRevoked: 20, constants.ErrInvalidName: 21, constants.ErrNotActive: 22, constants.ErrNotUnique: 23, constants.ErrNotEnoughSlots: 24,
-	constants.ErrInsufficientBalance: 100, constants.ErrContractMethodNotFound: 101, constants.ErrContractDoesntExist: 101,
+	constants.ErrInvalidToken: 26, constants.ErrUnknownNetwork: 27, constants.ErrInvalidToAddress: 28, constants.ErrBridgeNotInitialized: 29,
+	constants.ErrOrchestratorNotInitialized: 30, constants.ErrTokenNotRedeemable: 31, constants.ErrBridgeHalted: 32, constants.ErrInvalidRedeemPeriod: 33,
+	constants.ErrInvalidRedeemRequest: 34, constants.ErrInvalidTransactionHash: 35, constants.ErrTokenNotFound: 36, constants.ErrInvalidECDSASignature: 37,
+	constants.ErrSecurityNotInitialized: 38,
+	constants.ErrInsufficientBalance:    100, constants.ErrContractMethodNotFound: 101, constants.ErrContractDoesntExist: 101,
 }
 
 func errCode(e error) int64 {
@@ -278,6 +312,109 @@ func (w *world) dumpCommon(c types.Address, extra ...types.Address) interface{} 
 	return Con("Build_cstore", q, r)
 }
 
+func (w *world) dumpLiquidity() interface{} {
+	st := w.storageOf(types.LiquidityContract)
+	li, err := definition.GetLiquidityInfo(st)
+	if err != nil {
+		panic(err)
+	}
+	tuples := Lst()
+	for _, tt := range li.TokenTuples {
+		tuples = append(tuples, Con("Build_ltuple", Byt([]byte(tt.TokenStandard)), U64(uint64(tt.ZnnPercentage)), U64(uint64(tt.QsrPercentage)), Big(tt.MinAmount)))
+	}
+	entries := Lst()
+	for _, k := range keysWithPrefix(st, 2) {
+		var a types.Address
+		var id types.Hash
+		copy(a[:], k[:20])
+		copy(id[:], k[20:])
+		e, err := definition.GetLiquidityStakeEntry(st, id, a)
+		if err != nil {
+			panic(err)
+		}
+		entries = append(entries, Tup(Byt(k), Con("Build_lstake", Big(e.Amount), Byt(e.TokenStandard.Bytes()), Big(e.WeightedAmount), I64(e.StartTime), I64(e.RevokeTime), I64(e.ExpirationTime))))
+	}
+	return Con("Build_qstore", Byt(li.Administrator.Bytes()), li.IsHalted, Big(li.ZnnReward), Big(li.QsrReward), tuples, entries)
+}
+
+func be32(x uint32) []byte { return []byte{byte(x >> 24), byte(x >> 16), byte(x >> 8), byte(x)} }
+
+// the unwrap request named by a bridge call (UnwrapToken / Redeem / RevokeUnwrapRequest)
+func namedUnwrap(s *nom.AccountBlock) (types.Hash, uint32, bool) {
+	switch methodOf(cBridge, s.Data) {
+	case definition.UnwrapTokenMethodName:
+		prm := new(definition.UnwrapTokenParam)
+		if definition.ABIBridge.UnpackMethod(prm, definition.UnwrapTokenMethodName, s.Data) == nil {
+			return prm.TransactionHash, prm.LogIndex, true
+		}
+	case definition.RedeemUnwrapMethodName:
+		prm := new(definition.RedeemParam)
+		if definition.ABIBridge.UnpackMethod(prm, definition.RedeemUnwrapMethodName, s.Data) == nil {
+			return prm.TransactionHash, prm.LogIndex, true
+		}
+	case definition.RevokeUnwrapRequestMethodName:
+		prm := new(definition.RevokeUnwrapParam)
+		if definition.ABIBridge.UnpackMethod(prm, definition.RevokeUnwrapRequestMethodName, s.Data) == nil {
+			return prm.TransactionHash, prm.LogIndex, true
+		}
+	}
+	return types.Hash{}, 0, false
+}
+
+// the bridge tables; of the unwrap requests the one named by the call and the two with the smallest other keys (the
+// oracles of blAfter compare ALL requests before / after on the implementation)
+func (w *world) dumpBridge(s *nom.AccountBlock) interface{} {
+	st := w.storageOf(types.BridgeContract)
+	bi, err := definition.GetBridgeInfoVariable(st)
+	if err != nil {
+		panic(err)
+	}
+	guardians := 0
+	if si, err := definition.GetSecurityInfoVariable(st); err == nil {
+		guardians = len(si.Guardians)
+	}
+	orch := false
+	if oi, err := definition.GetOrchestratorInfoVariable(st); err == nil {
+		orch = !(oi.WindowSize == 0 || oi.KeyGenThreshold == 0 || oi.ConfirmationsToFinality == 0 || oi.EstimatedMomentumTime == 0)
+	}
+	nets := Lst()
+	nl, err := definition.GetNetworkList(st)
+	if err != nil {
+		panic(err)
+	}
+	sort.Slice(nl, func(i, j int) bool {
+		return string(append(be32(nl[i].NetworkClass), be32(nl[i].Id)...)) < string(append(be32(nl[j].NetworkClass), be32(nl[j].Id)...))
+	})
+	for _, n := range nl {
+		pairs := Lst()
+		for _, tp := range n.TokenPairs {
+			pairs = append(pairs, Con("Build_tpair", Byt(tp.TokenStandard.Bytes()), Byt([]byte(tp.TokenAddress)), tp.Bridgeable, tp.Redeemable, tp.Owned,
+				Big(tp.MinAmount), U64(uint64(tp.FeePercentage)), U64(uint64(tp.RedeemDelay))))
+		}
+		nets = append(nets, Tup(Byt(append(be32(n.NetworkClass), be32(n.Id)...)), Con("Build_network", Byt([]byte(n.Name)), pairs)))
+	}
+	reqs := Lst()
+	rl, err := definition.GetUnwrapTokenRequests(st)
+	if err != nil {
+		panic(err)
+	}
+	tx, log, named := namedUnwrap(s)
+	others := 0
+	for _, r := range rl {
+		if !(named && r.TransactionHash == tx && r.LogIndex == log) {
+			if others >= 2 {
+				continue
+			}
+			others++
+		}
+		reqs = append(reqs, Tup(Byt(append(append([]byte{}, r.TransactionHash.Bytes()...), be32(r.LogIndex)...)),
+			Con("Build_unwrap", U64(r.RegistrationMomentumHeight), U64(uint64(r.NetworkClass)), U64(uint64(r.ChainId)), Byt(r.ToAddress.Bytes()), Byt([]byte(r.TokenAddress)),
+				Byt(r.TokenStandard.Bytes()), Big(r.Amount), Byt([]byte(r.Signature)), I64(int64(r.Redeemed)), I64(int64(r.Revoked)))))
+	}
+	return Con("Build_bstore", Byt(bi.Administrator.Bytes()), len(bi.CompressedTssECDSAPubKey) != 0, bi.Halted, U64(bi.UnhaltedAt), U64(bi.UnhaltDurationInMomentums),
+		I64(int64(guardians)), orch, nets, reqs)
+}
+
 func (w *world) dumpFor(c *contractDef, m *modelled, s *nom.AccountBlock) interface{} {
 	switch m.fn {
 	case "emb_plasma":
@@ -292,6 +429,10 @@ func (w *world) dumpFor(c *contractDef, m *modelled, s *nom.AccountBlock) interf
 		return w.dumpSentinel()
 	case "emb_pillar":
 		return w.dumpPillar()
+	case "emb_liquidity":
+		return w.dumpLiquidity()
+	case "emb_bridge":
+		return w.dumpBridge(s)
 	}
 	return w.dumpCommon(c.Addr, s.Address)
 }
@@ -351,6 +492,9 @@ func (w *world) embBefore(c *contractDef, s *nom.AccountBlock) *embPre {
 			p.tokens = append(p.tokens, h.TokenStandard)
 		}
 	}
+	if m.fn == "emb_liquidity" || m.fn == "emb_bridge" {
+		p.tokens = append(p.tokens, w.bl.lp, w.bl.tk)
+	}
 	p.state = w.dumpFor(c, m, s)
 	p.bal = w.balTerm(c.Addr, p.tokens)
 	// which contracts accept Donate in this regime (for Mint to an embedded receiver)
@@ -369,6 +513,39 @@ func (w *world) embBefore(c *contractDef, s *nom.AccountBlock) *embPre {
 		if definition.ABIHtlc.UnpackMethod(prm, definition.UnlockHtlcMethodName, s.Data) == nil {
 			p.hashes = append(p.hashes, Tup(I64(int64(definition.HashTypeSHA3)), Byt(prm.Preimage), Byt(crypto.Hash(prm.Preimage))),
 				Tup(I64(int64(definition.HashTypeSHA256)), Byt(prm.Preimage), Byt(crypto.HashSHA256(prm.Preimage))))
+		}
+	}
+	if m.fn == "emb_liquidity" {
+		// observed: the string form of the sent token standard, the spork address, whether the accelerator spork is enforced
+		p.hashes = append(p.hashes, Tup(I64(1), Byt(s.TokenStandard.Bytes()), Byt([]byte(s.TokenStandard.String()))), Tup(I64(2), Byt(types.SporkAddress.Bytes()), Byt(nil)))
+		if ok, err := fms.IsSporkActive(types.AcceleratorSpork); err == nil && ok {
+			p.hashes = append(p.hashes, Tup(I64(3), Byt(nil), Byt(nil)))
+		}
+	}
+	if m.fn == "emb_bridge" {
+		// observed: the string form of every paired token standard; for UnwrapToken the verdict of the implementation's
+		// message builder + ECDSA check of the carried signature against the current TSS key
+		if nets, err := definition.GetNetworkList(w.storageOf(types.BridgeContract)); err == nil {
+			for _, n := range nets {
+				for _, tp := range n.TokenPairs {
+					p.hashes = append(p.hashes, Tup(I64(1), Byt(tp.TokenStandard.Bytes()), Byt([]byte(tp.TokenStandard.String()))))
+				}
+			}
+		}
+		if m.id == 1 {
+			code := int64(99)
+			prm := new(definition.UnwrapTokenParam)
+			if definition.ABIBridge.UnpackMethod(prm, definition.UnwrapTokenMethodName, s.Data) == nil {
+				if bi, err := definition.GetBridgeInfoVariable(w.storageOf(types.BridgeContract)); err == nil {
+					if msg, err := implementation.GetUnwrapTokenRequestMessage(prm); err == nil {
+						code = errCode(constants.ErrInvalidECDSASignature)
+						if ok, err := implementation.CheckECDSASignature(msg, bi.DecompressedTssECDSAPubKey, prm.Signature); ok && err == nil {
+							code = 0
+						}
+					}
+				}
+			}
+			p.hashes = append(p.hashes, Tup(I64(100+code), Byt(nil), Byt(nil)))
 		}
 	}
 	if m.fn == "emb_pillar" { // observed verdicts: checkPillarNameStatic on the name carried by the call; CheckSwapSignature + key id of RegisterLegacy
@@ -418,10 +595,25 @@ func (w *world) embAfter(c *contractDef, s *nom.AccountBlock, p *embPre, ma *nom
 	if p.m.fn == "emb_sentinel" || p.m.fn == "emb_pillar" {
 		env = lenvTerm(ma.Timestamp.Unix())
 	}
+	if p.m.fn == "emb_liquidity" || p.m.fn == "emb_bridge" { // descendants compared with their call data
+		ds = Lst()
+		for _, x := range blk.DescendantBlocks {
+			ds = append(ds, Tup(Byt(x.ToAddress.Bytes()), Big(x.Amount), Byt(x.TokenStandard.Bytes()), Byt(x.Data)))
+		}
+	}
 	in := Tup(I64(p.m.id), env, Byt(c.Addr.Bytes()), p.state, p.bal, sendTerm(s), p.donate, p.hashes)
 	tag := methodOf(c, s.Data) + ":" + map[bool]string{true: "applied", false: "refunded"}[retErr == nil]
 	if retErr != nil {
 		tag += ":" + retErr.Error()
+	}
+	if (p.m.fn == "emb_liquidity" || p.m.fn == "emb_bridge") && retErr != nil {
+		// refusals of the same kind are plentiful in the bridgeliq histories: after the first few of a kind every fourth is
+		// compared with the model (the oracles run on all of them)
+		tieSeen[p.m.fn+tag]++
+		if n := tieSeen[p.m.fn+tag]; n > 6 && n%4 != 0 {
+			w.out.Count("tie-sampled-out:" + p.m.fn + ":" + tag)
+			return
+		}
 	}
 	w.out.Case(p.m.fn, in, Tup(I64(errCode(retErr)), ds, post, bal), tag)
 }
